@@ -2,6 +2,7 @@
 (* Bounded instances of LogThread.tla (mode M of C25): ALL interleavings of  *)
 (* the senders' three-step sends, the collector and the owner (collect or    *)
 (* drop, at any moment - in particular racing with sends).                   *)
+(*   MC_LogThread_32.cfg    2 senders, 3 + 2 messages (quick tier)           *)
 (*   MC_LogThread_2x3.cfg   2 senders x 3 messages over 2 addresses (safety) *)
 (*   MC_LogThread_3x2.cfg   3 senders x 2 messages over 2 addresses (safety) *)
 (*   MC_LogThread_cov.cfg   2 senders, 2 + 1 messages (action coverage)      *)
@@ -23,6 +24,12 @@ Senders2 == {1, 2}
 Script2 == <<
   << M(1, "cwe", 1, <<1>>),    M(2, "log", 2, <<>>),   M(3, "cwe", 3, <<1, 2>>) >>,
   << M(4, "cwe", 4, <<2, 1>>), M(5, "alog", 5, <<1>>), M(6, "log", 2, <<>>) >> >>
+
+\* quick tier: 2 senders, 3 + 2 messages (a fifth of the states of 2 x 3): both senders report
+\* address 1, an addressed log on the same address, two address-less logs with identical content
+Script32 == <<
+  << M(1, "cwe", 1, <<1>>),    M(2, "log", 2, <<>>),   M(5, "alog", 5, <<1>>) >>,
+  << M(4, "cwe", 4, <<1, 2>>), M(6, "log", 2, <<>>) >> >>
 
 \* 3 x 2
 Senders3 == {1, 2, 3}
